@@ -167,8 +167,8 @@ def plan(ctx):
                 jobs.append(("rand %s/%s" % (kind, route), ["random", "-kind", kind, "-route", route, "-n", n, "-ops", "1200", "-seed", seed], 300))
             else:
                 jobs.append(("rand %s/%s" % (kind, route), ["random", "-kind", kind, "-route", route, "-n", "14", "-ops", "10000", "-seed", seed], 840))
-    jobs.append(("programs", ["programs", "-n", "300" if q else "4000", "-maxops", "30", "-seed", seed], 600))
-    jobs.append(("sample", ["sample", "-n", "70" if q else "1200", "-maxops", "30" if q else "40", "-seed", seed], 300))
+    jobs.append(("programs", ["programs", "-n", "200" if q else "4000", "-maxops", "30", "-seed", seed], 600))
+    jobs.append(("sample", ["sample", "-n", "60" if q else "1200", "-maxops", "28" if q else "40", "-seed", seed], 300))
     return jobs
 
 
@@ -194,7 +194,12 @@ def run(ctx):
     if getattr(ctx, "replay_path", None):
         ctx.proofs()
         return replay(ctx, hx, ctx.replay_path)
+    # Check.v (decidable comparison used below) and History.v are not imported by Properties.v
+    ok, log = ctx.coq_make(["C12/Check.vo", "C12/History.vo"])
+    if not ok:
+        ctx.broken("coq-build:C12/Check.vo", log[-2000:])
     jobs = plan(ctx)
+    jobs.sort(key=lambda j: j[0] != "sample")  # the sample first: its Coq evaluation overlaps the rest
     results = {}
 
     def one(job):
@@ -210,10 +215,19 @@ def run(ctx):
                     pass
         return name, p.returncode, lines, p.stderr[-2000:]
 
-    # the exhaustive runs use 16 workers each; run a few invocations side by side,
-    # and build + audit the Coq development meanwhile
-    with cf.ThreadPoolExecutor(max_workers=3 if ctx.quick() else 2) as ex:
+    def eval_sample(fut):
+        lines = fut.result()[2]
+        hs = [l for l in lines if l.get("kind") == "hist"]
+        good = [h for h in hs if not h.get("err")]
+        terms = [dcase_term(h) for h in good]
+        ctx.log("evaluating %d sample histories in Coq (model and specification)" % len(terms))
+        return hs, good, coq_eval(ctx, terms)
+
+    # the exhaustive runs use 16 workers each; run a few invocations side by side, evaluate the
+    # sample in Coq and build + audit the Coq development meanwhile
+    with cf.ThreadPoolExecutor(max_workers=3 if ctx.quick() else 2) as ex, cf.ThreadPoolExecutor(max_workers=1) as ex2:
         futs = [ex.submit(one, j) for j in jobs]
+        fut_eval = ex2.submit(eval_sample, futs[0])
         ctx.proofs()
         for name, rc, lines, err in (f.result() for f in futs):
             results[name] = lines
@@ -222,6 +236,7 @@ def run(ctx):
                 ctx.broken("harness:" + name, "harness exited with %s: %s" % (rc, err[-600:]))
             ctx.log("%-34s %s" % (name, "; ".join(
                 "%s histories, %s mismatches" % (l.get("histories"), l.get("mismatches")) for l in lines if l.get("kind") in ("exh", "rand", "prog")) or "%d lines" % len(lines)))
+        hs, good, (bad_model, bad_spec) = fut_eval.result()
 
     dist = {}
     evaluations = 0
@@ -240,7 +255,8 @@ def run(ctx):
                     l.get("want", {}).get("out"), l.get("want", {}).get("len"), l.get("want", {}).get("items"), l.get("msg", ""))
                 ctx.finding(key, what, {"how": "echo '<this object>' | build/<key>/bin/c12 replay", "tkind": l["tkind"], "route": l["route"],
                                         "hashes": l["hashes"], "init": l["init"], "ops": ops, "at": l.get("at"),
-                                        "got": l.get("got"), "want": l.get("want"), "msg": l.get("msg")})
+                                        "got": l.get("got"), "want": l.get("want"), "msg": l.get("msg"),
+                                        "program": l.get("program"), "keys": l.get("keys")})
             elif k in ("exh", "rand", "prog"):
                 dist[name] = l.get("histories", 0)
                 histories += l.get("histories", 0)
@@ -255,14 +271,9 @@ def run(ctx):
                     dist[name + " by hash distribution"] = l.get("distribution")
 
     # ---- Coq-sized sample: model correspondence and Spec.v oracle
-    hs = [l for l in results.get("sample", []) if l.get("kind") == "hist"]
-    good = [h for h in hs if not h.get("err")]
     for h in hs:
         if h.get("err"):
             ctx.finding("%s:panic" % h["tkind"], "host panic / inconsistency while running a history: %s" % h["err"], h)
-    terms = [dcase_term(h) for h in good]
-    ctx.log("evaluating %d sample histories in Coq (model and specification)" % len(terms))
-    bad_model, bad_spec = coq_eval(ctx, terms)
     bad_spec_s = set(bad_spec)
     for i, h in enumerate(good):
         if (i in bad_spec_s) == bool(h.get("go_oracle_ok")):
